@@ -374,6 +374,7 @@ def run_scenario(sc, ghost=False, debug=False):
             else:
                 clock.labelled(t, "srv.inject_oversize", server.inject, "oversize")
         tr.capped = False
+        tr.pending_after_heal = []
         mark = [0]
 
         def quiesce():
@@ -390,6 +391,9 @@ def run_scenario(sc, ghost=False, debug=False):
                 tr.heal_t = clock.seconds()
                 clock.run(until=clock.seconds() + 60.0, max_steps=60000)
             pending = [r for r in tr.reqs.values() if r["d"] is not None and not r["fires"]]
+            tr.pending_after_heal = [rid for rid, r in tr.reqs.items() if r["d"] is not None and not r["fires"]] \
+                if (sc["end"] == "heal" and tr.close_called is None and not net.pending_attempts) else []
+            # (a connection attempt the network never completes is the endpoint's to time out, not afkak's)
             if pending or sc["end"] == "close" or tr.close_called is None:
                 do_close()
             clock.run(until=clock.seconds() + 30.0, max_steps=60000)
